@@ -117,11 +117,16 @@ func (p *PQ) openQueue() error {
 	if err != nil {
 		return err
 	}
-	q, err := pq.New(dg, pq.Settings{
+	set := pq.Settings{
 		WriteBuffer: uint(p.Cfg.WriteBuf),
 		Flushed:     func(n uint) { p.cbFlushed += int(n) },
 		ACKed:       func(ev, pages uint) { p.cbAcked += int(ev) },
-	})
+	}
+	if p.Cfg.PQObserver {
+		// a statistics observer must not change what the queue does
+		set.Observer = &pqObserver{p: p}
+	}
+	q, err := pq.New(dg, set)
 	if err != nil {
 		return err
 	}
@@ -770,7 +775,24 @@ func DrawPQCfg(rng *simsched.Rand, bounded bool) Cfg {
 	}
 	c.InitMeta = []int{0, 0, 2, 4}[rng.Intn(4)]
 	c.WriteBuf = []int{0, 0, 8, 16}[rng.Intn(4)] * c.PageSize
+	c.PQObserver = rng.Intn(2) == 0
 	c.Stick = []float64{0, 0.3, 0.6, 0.9, 0.98}[rng.Intn(5)]
 	c.BgWeight = []float64{0.05, 0.3, 1, 1, 3, 10}[rng.Intn(6)]
 	return c
 }
+
+// pqObserver is a recording stub for pq.Observer.
+type pqObserver struct {
+	p                         *PQ
+	flushes, reads, acks, ini int
+}
+
+func (o *pqObserver) OnQueueInit(uintptr, uint32, uint) { o.ini++ }
+func (o *pqObserver) OnQueueFlush(_ uintptr, st pq.FlushStats) {
+	o.flushes++
+	if st.Failed {
+		o.p.E.Probe("observer_saw_failed_flush")
+	}
+}
+func (o *pqObserver) OnQueueRead(uintptr, pq.ReadStats) { o.reads++ }
+func (o *pqObserver) OnQueueACK(uintptr, pq.ACKStats)   { o.acks++ }
